@@ -449,6 +449,47 @@ def ob_reshape_coincidence():
     return Verdict(DISCHARGED, backend="native run", sub=n)
 
 
+def ob_reshape_divisible(case):
+    """meshes where (number of elements x number of components) happens to be a multiple of the number of nodes, or the number of dofs a multiple of the number of elements
+    (both numbers differ): a result stored per element is still brought to the nodes (and a nodal vector still averaged per element), never merely reshaped"""
+    import contextlib, io
+    from EasyFEA import Models, Simulations, ElemType
+    from EasyFEA.Geoms import Domain, Point
+    with contextlib.redirect_stdout(io.StringIO()):
+        if case == "quad5x4":           # Ne = 20, Nn = 30: Strain (20, 3) has 60 = 2 Nn entries
+            mesh = Domain(Point(), Point(5, 4), 1.0).Mesh_2D([], ElemType.QUAD4, isOrganised=True)
+        elif case == "quad4x1":         # Nn = 10, Ne = 4: the dof vector (20,) has 5 Ne entries
+            mesh = Domain(Point(), Point(4, 1), 1.0).Mesh_2D([], ElemType.QUAD4, isOrganised=True)
+        else:                           # TETRA4 box
+            mesh = Domain(Point(), Point(3, 2), 1.0).Mesh_Extrude([], [0, 0, 1], [2], ElemType.TETRA4, isOrganised=True)
+    if mesh.Nn == mesh.Ne:
+        raise Unsupported("Nn == Ne: that is the case of C16.reshape.coincidence")
+    dim = mesh.dim
+    s_ = Simulations.Elastic(mesh, Models.Elastic.Isotropic(dim, E=3.0, v=0.25))
+    rng = np.random.default_rng(0)
+    u = 1e-3 * rng.normal(size=mesh.Nn * dim)
+    s_._Set_solutions(s_.problemType, u)
+    Nn, Ne = int(mesh.Nn), int(mesh.Ne)
+    n = 0
+    for name in ("Strain", "Stress", "Svm", "Exx"):
+        Se = np.asarray(s_.Result(name, nodeValues=False))
+        Sn = np.asarray(s_.Result(name, nodeValues=True))
+        if Se.shape[0] != Ne:
+            raise Refuted(f"{case} (Nn={Nn}, Ne={Ne}): Result('{name}', nodeValues=False) has shape {Se.shape}", cex=dict(Nn=Nn, Ne=Ne, result=name), signature="reshape:divisible:elem", replay=dict(confirmed=True))
+        ref = np.asarray(mesh.Get_Node_Values(Se.reshape(Ne, -1)))
+        n += 1
+        if Sn.reshape(Nn, -1).shape != ref.reshape(Nn, -1).shape or np.abs(Sn.reshape(Nn, -1) - ref.reshape(Nn, -1)).max() > 1e-10 * np.abs(ref).max():
+            raise Refuted(f"{case} (Nn={Nn}, Ne={Ne}): Result('{name}', nodeValues=True) has shape {Sn.shape} and is not the element values brought to the nodes "
+                          f"(the element array of {Se.size} entries was taken for nodal storage)", cex=dict(Nn=Nn, Ne=Ne, result=name), signature="reshape:divisible:node", replay=dict(confirmed=True))
+    ue = np.asarray(s_.Result("displacement", nodeValues=False))
+    ux = np.asarray(s_.Result("ux", nodeValues=False))
+    n += 1
+    if ue.size != Ne * dim or np.abs(ue.reshape(Ne, dim)[:, 0] - ux.ravel()).max() > 1e-12:
+        raise Refuted(f"{case} (Nn={Nn}, Ne={Ne}): Result('displacement', nodeValues=False) has {ue.size} entries: its x component is not Result('ux', nodeValues=False)",
+                      cex=dict(Nn=Nn, Ne=Ne), signature="reshape:divisible:vector", replay=dict(confirmed=True))
+    return Verdict(DISCHARGED, backend="native run", sub=n)
+
+
 def ob_result_other(sim, seed):
     """generic clauses for the other simulation types: every advertised name is served for an arbitrary state; vector results and their components agree."""
     from .C15 import _mk
@@ -605,6 +646,9 @@ def build(tier, seed):
                       ("EasyFEA/Simulations/_phasefield.py::PhaseField.Set_Iter", "EasyFEA/Simulations/_phasefield.py::PhaseField.Result"),
                       bound="3 solve/save steps on a 9-node patch, restores in the order 0, 1, 0, 2, 1, 0", timeout=300,
                       clause="every advertised result after Set_Iter(i) is the same whichever iteration was current before (no matrix of another state is reused)"))
+    for case in ("quad5x4", "quad4x1", "tetra"):
+        obs.append(Ob(f"C16.reshape.divisible.{case}", ob_reshape_divisible, (case,), "X", ("EasyFEA/Simulations/_simu.py::_Simu.Results_Reshape_values",), bound="one structured mesh with divisible counts, one random state",
+                      clause="element results are brought to the nodes (nodal vectors averaged per element) whatever divisibility relation holds between Ne, Nn and the number of components"))
     obs.append(Ob("canary.indices", ob_indices, (2, True), "P", expect=REFUTED, timeout=300))
     functions = {"__Result_in_Strain_or_Stress_field": extract.get(MU, "__Result_in_Strain_or_Stress_field").describe(), "Elastic.Result": extract.get(SE, "Elastic.Result").describe(),
                  "Elastic._Calc_Psi_Elas": extract.get(SE, "Elastic._Calc_Psi_Elas").describe()}
